@@ -121,6 +121,28 @@ Theorem C12_isort_sorted_perm : forall l, StronglySorted (fun a b => str_leb a b
 Proof. intros l. split; [exact (isort_sorted l) | exact (isort_perm l)]. Qed.
 Print Assumptions C12_isort_sorted_perm.
 
+(* ---- schema R: memoised resolution (static-str consts of emit_program) *)
+(* R1 if the resolver's answer for a key does not depend on the memo state, the memo built by
+      iterating the keys in ANY order answers every lookup the same way.  The hypothesis is the one
+      thing the site needs; the check re-validates it on every run with a differential probe (the
+      same long const chains generated 12 times in one process and in 8 processes). *)
+Theorem C12_memo_site_deterministic : forall (V : Type) (f : store V -> str -> option V) (g : str -> option V) o1 o2 k,
+  (forall m a, f m a = g a) -> Permutation o1 o2 -> read (memo_all f o1) k = read (memo_all f o2) k.
+Proof. exact memo_all_order_free. Qed.
+Print Assumptions C12_memo_site_deterministic.
+
+(* R2 refuted without it: a resolver with a recursion limit answers from the memo when it can, so
+      whether a deep key resolves depends on which keys were memoised before (chain a <- b <- c, limit 2) *)
+Theorem C12_memo_site_refuted : exists (f : store str -> str -> option str) o1 o2 k,
+  Permutation o1 o2 /\ NoDup o1 /\ read (memo_all f o1) k <> read (memo_all f o2) k.
+Proof.
+  exists (resolve_bounded 2 (fun k => if str_eqb k (s "c") then Some (s "b") else if str_eqb k (s "b") then Some (s "a") else None)),
+         [s "a"; s "b"; s "c"], [s "c"; s "b"; s "a"], (s "c").
+  split; [apply (Permutation_rev [s "a"; s "b"; s "c"])|].
+  split; [repeat constructor; cbn; intuition discriminate|]. vm_compute. discriminate.
+Qed.
+Print Assumptions C12_memo_site_refuted.
+
 (* ---- schema M: results that are only read by key (files written per module, maps merged into maps) *)
 Theorem C12_keyed_writes_deterministic : forall (V : Type) (o1 o2 : list (str * V)) m0 k,
   NoDup (map fst o1) -> Permutation o1 o2 -> read (write_all m0 o1) k = read (write_all m0 o2) k.
